@@ -3,6 +3,8 @@ package work
 import (
 	"github.com/oasisprotocol/curve25519-voi/curve"
 	"github.com/oasisprotocol/curve25519-voi/curve/scalar"
+	"github.com/oasisprotocol/curve25519-voi/primitives/ed25519"
+	"github.com/oasisprotocol/curve25519-voi/primitives/sr25519"
 	"github.com/oasisprotocol/curve25519-voi/primitives/x25519"
 
 	"verifsim/core"
@@ -176,6 +178,31 @@ func (c *c06) famLengths() {
 			c.op("x25519.GeneratePrivateKey", "-> err")
 		} else {
 			c.op("x25519.GeneratePrivateKey", "-> %s public %s", core.Hex8(xk[:]), core.Hex8(xk.Public()[:]))
+		}
+	}
+	// Equal on keys: same value, a copy, another key, a foreign type, nil
+	{
+		k1, k2 := c.g.EdKey(), c.g.EdKey()
+		k1c := ed25519.PrivateKey(clone(k1))
+		var foreign struct{ x int }
+		c.op("ed25519.PrivateKey.Equal", "-> %v %v %v %v %v", k1.Equal(k1), k1.Equal(k1c), k1.Equal(k2), k1.Equal(foreign), k1.Equal(nil))
+		p1, p2 := ed25519.PublicKey(k1[32:]), ed25519.PublicKey(k2[32:])
+		c.op("ed25519.PublicKey.Equal", "-> %v %v %v %v %v %v", p1.Equal(p1), p1.Equal(ed25519.PublicKey(clone(p1))), p1.Equal(p2), p1.Equal(foreign), p1.Equal(nil), p1.Equal(k1.Public()))
+		m1, e1 := sr25519.NewMiniSecretKeyFromBytes(c.g.Bytes(32))
+		m2, e2 := sr25519.NewMiniSecretKeyFromBytes(c.g.Bytes(32))
+		if e1 == nil && e2 == nil {
+			b1, _ := m1.MarshalBinary()
+			m1c, _ := sr25519.NewMiniSecretKeyFromBytes(b1)
+			c.op("sr25519.MiniSecretKey.Equal", "-> %v %v %v", m1.Equal(m1), m1.Equal(m1c), m1.Equal(m2))
+			s1, s2 := m1.ExpandUniform(), m2.ExpandEd25519()
+			sb, _ := s1.MarshalBinary()
+			s1c, _ := sr25519.NewSecretKeyFromBytes(sb)
+			// same scalar, other nonce: not equal
+			nb := clone(sb)
+			nb[40] ^= 1
+			s1n, _ := sr25519.NewSecretKeyFromBytes(nb)
+			c.op("sr25519.SecretKey.Equal", "-> %v %v %v %v %v", s1.Equal(s1), s1c != nil && s1.Equal(s1c), s1.Equal(s2), s1n != nil && s1.Equal(s1n), s1.Equal(m1.ExpandEd25519()))
+			c.op("sr25519.PublicKey.Equal", "-> %v %v", s1.PublicKey().Equal(s1c.PublicKey()), s1.PublicKey().Equal(s2.PublicKey()))
 		}
 	}
 	try("len.x25519.X25519(point)", 32, func(b []byte) string {
